@@ -248,6 +248,14 @@ Definition update_urr (e : env) (o : urr_op) (c : sctx) : sctx * list rpt :=
 Definition or_trig (f : N) (r : rpt) : rpt :=
   mkRpt (r_urr r) (N.lor (r_trig r) f) (r_vflags r) (r_cnt r) (r_dur r) (r_start r) (r_end r).
 
+(* node.go RemoveURR (after fix "a removed URR that no final report names is forgotten at once"): the entry marked removed
+   is kept only for the final reports that name it (emit drops it with the last of them); when the removal succeeded and
+   no returned report names the URR, nothing is left to remember it for *)
+Definition names_urr (i : N) (rs : list rpt) : bool := existsb (fun r => N.eqb (r_urr r) i) rs.
+
+Definition forget_urr (ok : bool) (i : N) (rs : list rpt) (c : sctx) : sctx :=
+  if ok && negb (names_urr i rs) then upd_s c (fun s => set_urrs (adel i (s_urrs s)) s) else c.
+
 Definition remove_urr (e : env) (id : option N) (c : sctx) : sctx * list rpt :=
   match id with
   | None => (c, [])
@@ -258,7 +266,8 @@ Definition remove_urr (e : env) (id : option N) (c : sctx) : sctx * list rpt :=
       let inf1 := mkUrr true (ui_seqn inf) (ui_durat inf) (ui_volum inf) (ui_event inf) (ui_mnop inf) (ui_ref inf) in
       let c1 := upd_s c (fun s => set_urrs (aset i inf1 (s_urrs s)) s) in
       let '(c2, ok) := drv e c1 DRemove KURR i in
-      (c2, if ok then map (or_trig USAR_TRIG_TERMR) (usage e DRemove i) else [])
+      let rs := if ok then map (or_trig USAR_TRIG_TERMR) (usage e DRemove i) else [] in
+      (forget_urr ok i rs c2, rs)
     end
   end.
 
